@@ -659,6 +659,32 @@ class Func(Val):
         return (id(self.node),)
 
 
+class Rec(Val):
+    """A record: namedtuple instance, or an object of a small class whose __init__ stores its parameters."""
+
+    def __init__(self, cls, fields):
+        self.cls, self.fields = cls, tuple(fields)       # ((name, value), ...)
+
+    def _key(self):
+        return (self.cls, self.fields)
+
+    def get(self, name):
+        for k, v in self.fields:
+            if k == name:
+                return v
+        return None
+
+
+class RecType(Val):
+    """namedtuple('Name', fields)"""
+
+    def __init__(self, name, names):
+        self.name, self.names = name, tuple(names)
+
+    def _key(self):
+        return (self.name, self.names)
+
+
 class Truth(Val):
     """Result of a predicate that the rules classify from its syntax (kept so that helper predicates can be inlined)."""
 
@@ -672,6 +698,10 @@ class Truth(Val):
 def merge(a, b):
     if a == b:
         return a
+    if isinstance(a, Rec) and isinstance(b, Rec) and a.cls == b.cls and [k for k, _ in a.fields] == [k for k, _ in b.fields]:
+        return Rec(a.cls, [(k, merge(v, w)) for (k, v), (_, w) in zip(a.fields, b.fields)])
+    if isinstance(a, Tup) and isinstance(b, Tup) and len(a.items) == len(b.items):
+        return Tup([merge(v, w) for v, w in zip(a.items, b.items)])
     if isinstance(a, LineV) and isinstance(b, LineV) and a.contents == b.contents:
         return LineV(a.contents, Unk('number'), a.screened or b.screened)
     for x, y in ((a, b), (b, a)):
@@ -827,6 +857,8 @@ class Flow:
         self.returns = []       # [(value, guards, node)]
         self.loops = []
         self.try_ok = []
+        self.decisions = {}      # id(If node) -> arm taken on this run (path splitting, see run_function)
+        self.lossy = []          # If nodes (outside loops) whose join lost a value that each arm knew
         self.str_guard = 0       # > 0: inside a branch taken only when the register operand is a str
         self._module_cache = {}
 
@@ -845,6 +877,16 @@ class Flow:
         st = f.assign_nodes.get(name)
         if st is not None and isinstance(st.value, ast.Call) and dotted(st.value.func) == 're.compile':
             return self.eval(st.value, {})
+        if st is not None and isinstance(st.value, ast.Call) and dotted(st.value.func) in ('namedtuple', 'collections.namedtuple') and len(st.value.args) >= 2:
+            try:
+                names = fold(st.value.args[1], f.consts)
+            except NotConstant:
+                return Unk('namedtuple with computed fields')
+            if isinstance(names, str):
+                names = names.replace(',', ' ').split()
+            if isinstance(names, (list, tuple)) and all(isinstance(x, str) for x in names) and len(st.value.args) == 2 and not st.value.keywords:
+                return RecType(name, names)
+            return Unk('namedtuple form not followed')
         if st is not None and isinstance(st.value, (ast.List, ast.Tuple)) and name not in f.consts:
             return self.eval(st.value, {})          # a literal table whose entries are not all constants (compiled patterns ...)
         if name in f.consts:
@@ -958,6 +1000,10 @@ class Flow:
                 return base.toks
             if node.attr == 'line':
                 return base.line
+        if isinstance(base, Rec):
+            v = base.get(node.attr)
+            if v is not None:
+                return v
         return Unk(unparse(node)[:60])
 
     def e_Subscript(self, node, env):
@@ -969,6 +1015,8 @@ class Flow:
         idx = self.eval(node.slice, env) if not isinstance(node.slice, ast.Slice) else None
         if isinstance(base, Tup) and isinstance(idx, K) and isinstance(idx.value, int) and -len(base.items) <= idx.value < len(base.items):
             return base.items[idx.value]
+        if isinstance(base, Rec) and isinstance(idx, K) and isinstance(idx.value, int) and -len(base.fields) <= idx.value < len(base.fields):
+            return base.fields[idx.value][1]
         if isinstance(base, Seq) and isinstance(idx, Idx) and idx.seq == base and idx.base == 0 and not idx.late:
             return base.elem
         if isinstance(base, Toks) and base.cut is not None and isinstance(idx, K) and idx.value == 0:
@@ -1072,6 +1120,15 @@ class Flow:
                 return Unk('call of local ' + name)
             if name in self.special:
                 return self.special[name](self, args, kw, node, env)
+            rt = self.module_value(name) if name not in self.facts.funcs and name not in self.facts.classes else None
+            if isinstance(rt, RecType):
+                if len(args) > len(rt.names) or set(kw) - set(rt.names):
+                    return Unk('record arity')
+                bound = dict(zip(rt.names, args))
+                bound.update(kw)
+                if set(bound) != set(rt.names):
+                    return Unk('record with defaults')
+                return Rec(rt.name, [(k, bound[k]) for k in rt.names])
             b = getattr(self, 'b_' + name, None)
             if b is not None and name not in self.facts.funcs and name not in self.facts.classes:
                 return b(args, kw, node, env)
@@ -1411,6 +1468,18 @@ class Flow:
             if 'line' not in params or 'tokens' not in params:
                 raise AnalysisError('anchor vanished: LineTokens(line, tokens)')
             return LT(bound.get('line', Unk('missing')), bound.get('tokens', Unk('missing')))
+        # a small class whose __init__ stores its parameters: a record
+        ci = self.facts.classes.get(cname)
+        try:
+            order = self.facts.full_attr_order(cname) if ci is not None else []
+            params = [p for p, _ in self.facts.init_params(cname)]
+        except Exception:
+            order, params = [], []
+        if order and params and len(args) <= len(params) and not (set(kw) - set(params)) and all(src in params for _a, src in order):
+            bound = dict(zip(params, args))
+            bound.update(kw)
+            if all(src in bound for _a, src in order) and len({a for a, _ in order}) == len(order):
+                return Rec(cname, [(a, bound[src]) for a, src in order])
         return Unk('instance of ' + cname)
 
     def inline(self, f, args, kw, node):
@@ -1443,6 +1512,8 @@ class Flow:
         sub = Flow(self.facts, self.special, self.depth + 1, self.events, self.stack + (id(fn),), self.follow)
         sub.guards = list(self.guards)
         sub.try_ok = list(self.try_ok)
+        sub.decisions = self.decisions
+        sub.lossy = self.lossy
         sub.str_guard = self.str_guard
         if isinstance(fn, ast.Lambda):
             return sub.eval(fn.body, env)
@@ -1643,6 +1714,8 @@ class Flow:
             items = None
             if isinstance(value, K) and isinstance(value.value, (tuple, list)):
                 value = lift(value.value)
+            if isinstance(value, Rec):
+                value = Tup([v for _k, v in value.fields])
             if isinstance(value, (Tup, ListLit)) and len(value.items) == len(target.elts) and not any(isinstance(e, ast.Starred) for e in target.elts):
                 items = value.items
             for i, e in enumerate(target.elts):
@@ -1731,8 +1804,43 @@ class Flow:
     def s_Break(self, st, env):
         return True
 
+    def static_truth(self, test, env):
+        """The value of a sentinel test that the values at hand decide: `x is None`, `x is not None`, `not ...`."""
+        if isinstance(test, ast.UnaryOp) and isinstance(test.op, ast.Not):
+            r = self.static_truth(test.operand, env)
+            return None if r is None else not r
+        if (isinstance(test, ast.Compare) and len(test.ops) == 1 and isinstance(test.ops[0], (ast.Is, ast.IsNot, ast.Eq, ast.NotEq))
+                and isinstance(test.comparators[0], ast.Constant) and test.comparators[0].value is None and isinstance(test.left, ast.Name)):
+            v = env.get(test.left.id)
+            if v is None:
+                return None
+            if v == K(None):
+                is_none = True
+            elif isinstance(v, (ListLit, Toks, Text, LT, LineV, Tup, Rec, Seq, Rx)) or (isinstance(v, K) and v.value is not None):
+                is_none = False
+            else:
+                return None
+            return is_none if isinstance(test.ops[0], (ast.Is, ast.Eq)) else not is_none
+        return None
+
+    def run_arm_inline(self, st, truth, env):
+        """Only one arm of the If is on this path: run it as part of the enclosing block (conditions met on the way stay in
+        force to the end of that block)."""
+        snapshot = dict(env)
+        self.refine(env, st.test, truth)
+        self.guards.append((st.test, truth, snapshot))
+        for sub in (st.body if truth else st.orelse):
+            if self.run_stmt(sub, env):
+                return True
+        return False
+
     def s_If(self, st, env):
         self.eval(st.test, env)
+        decided = self.static_truth(st.test, env)
+        if decided is None and id(st) in self.decisions:
+            decided = self.decisions[id(st)]
+        if decided is not None and not self.loops:
+            return self.run_arm_inline(st, decided, env)
         snapshot = dict(env)
         et, ef = dict(env), dict(env)
         self.refine(et, st.test, True)
@@ -1770,6 +1878,8 @@ class Flow:
         for k in keys:
             if k in et and k in ef:
                 merged[k] = self.merge_under(st.test, snapshot, et[k], ef[k])
+                if isinstance(merged[k], Unk) and not isinstance(et[k], Unk) and not isinstance(ef[k], Unk) and not self.loops and st not in self.lossy:
+                    self.lossy.append(st)
             else:
                 merged[k] = Unk('bound on one arm only')
         env.clear()
@@ -1777,6 +1887,13 @@ class Flow:
         return False
 
     def s_With(self, st, env):
+        # with contextlib.suppress(E1, E2): body   ==   try: body / except (E1, E2): pass
+        if len(st.items) == 1 and st.items[0].optional_vars is None and isinstance(st.items[0].context_expr, ast.Call):
+            call = st.items[0].context_expr
+            if dotted(call.func) in ('contextlib.suppress', 'suppress') and call.args and not call.keywords and 'suppress' not in env:
+                kinds = call.args[0] if len(call.args) == 1 else ast.Tuple(elts=list(call.args), ctx=ast.Load())
+                handler = ast.ExceptHandler(type=kinds, name=None, body=[ast.Pass()])
+                return self.s_Try(ast.Try(body=st.body, handlers=[handler], orelse=[], finalbody=[]), env)
         for it in st.items:
             self.eval(it.context_expr, env)
             if it.optional_vars is not None:
@@ -1925,20 +2042,61 @@ class Flow:
         return False
 
 
+MAX_PATHS = 48
+
+
 def run_function(facts, fn, bindings, special=None, follow=None):
-    """Interpret module-level function `fn` with its parameters bound per `bindings` (others unknown)."""
-    flow = Flow(facts, special, stack=(id(fn),), follow=follow)
-    env = {}
-    a = fn.args
-    for p in a.posonlyargs + a.args + a.kwonlyargs:
-        env[p.arg] = Unk('parameter ' + p.arg)
-    if a.vararg:
-        env[a.vararg.arg] = Unk('varargs')
-    if a.kwarg:
-        env[a.kwarg.arg] = Unk('kwargs')
-    env.update(bindings)
-    flow.run_block(fn.body, env)
-    return flow
+    """Interpret module-level function `fn` with its parameters bound per `bindings` (others unknown).
+
+    Joins are path-insensitive first.  Where a join (outside loops) loses a value that both arms knew - the `tokens = None` sentinel
+    of a single-exit function - the run is repeated once per arm of that If (the arm fixed, sentinel tests decided by the values at
+    hand), recursively, and the returns / events of all runs are united: every path is covered by one of them."""
+    def once(decisions):
+        flow = Flow(facts, special, stack=(id(fn),), follow=follow)
+        flow.decisions = decisions
+        env = {}
+        a = fn.args
+        for p in a.posonlyargs + a.args + a.kwonlyargs:
+            env[p.arg] = Unk('parameter ' + p.arg)
+        if a.vararg:
+            env[a.vararg.arg] = Unk('varargs')
+        if a.kwarg:
+            env[a.kwarg.arg] = Unk('kwargs')
+        env.update(bindings)
+        flow.run_block(fn.body, env)
+        return flow
+
+    leaves = []
+    todo = [{}]
+    while todo:
+        dec = todo.pop()
+        flow = once(dec)
+        fresh = [st for st in flow.lossy if id(st) not in dec]
+        if fresh and len(leaves) + len(todo) + 2 <= MAX_PATHS:
+            st = min(fresh, key=lambda n: (n.lineno, n.col_offset))
+            for arm in (False, True):
+                d = dict(dec)
+                d[id(st)] = arm
+                todo.append(d)
+            continue
+        leaves.append(flow)
+    first = leaves[0]
+    if len(leaves) > 1:
+        seen = set()
+        returns, events = [], []
+        for fl in leaves:
+            for r in fl.returns:
+                key = (id(r[2]), r[0], tuple((id(t), tr) for t, tr, _e in r[1]))
+                if key not in seen:
+                    seen.add(key)
+                    returns.append(r)
+            for e in fl.events:
+                key = ('e', e[0], id(e[2]), e[1] if isinstance(e[1], Val) else repr(e[1]), tuple((id(t), tr) for t, tr, _e in e[3]))
+                if key not in seen:
+                    seen.add(key)
+                    events.append(e)
+        first.returns, first.events = returns, events
+    return first
 
 
 def first_param(fn):
